@@ -11,7 +11,7 @@ let case_whnf t = L [ A "whnf"; L [ A "ctx" ]; sexp_of_term t ]
 
 let is_closed (t : term) : bool = fvl t O = []
 
-let gen ~(tier : string) ~(seed : int) ~(emit : Sexp.t -> unit) : unit =
+let gen_closed ~(tier : string) ~(seed : int) ~(emit : Sexp.t -> unit) : unit =
   let r = Rng.make (seed * 6700417 + 6) in
   (* closed programs of ground type *)
   for i = 1 to (if tier = "quick" then 5000 else 50000) do
@@ -69,6 +69,29 @@ let rec erase_lam_ann (t : term) : term =
   | TLam (im, _, b) -> TLam (im, TType, r b) | TPi (im, d, b) -> TPi (im, r d, r b)
   | TApp (f, x) -> TApp (r f, r x) | TLet (ds, b) -> TLet (List.map (fun (_, d) -> (TType, r d)) ds, r b)  (* group annotations are ignored too *)
   | TNeg x -> TNeg (r x) | TBin (o, x, y) -> TBin (o, r x, r y) | TIf (c, x, y) -> TIf (r c, r x, r y)
+
+(* pairs under contexts with parameters AND definition groups (forward references, aliases, definitions
+   unfolded under binders entered after their group): random pairs, a term against its normal and weak-head
+   normal form, and every pair of variables of a small context *)
+let gen_ctx ~(tier : string) ~(seed : int) ~(emit : Sexp.t -> unit) : unit =
+  let r = Rng.make (seed * 7919 + 606) in
+  for _ = 1 to (if tier = "quick" then 5000 else 50000) do
+    let bs = random_ctx r in
+    let d = depth_of bs in
+    let g = ctx_oracle bs in
+    let fuel = nat_of_int 60 in
+    let emitp a b = if convb fuel g a b <> None && nf fuel g a <> None && nf fuel g b <> None then
+        emit (L [ A "unifypair"; ctx_sexp bs; sexp_of_term ~depth:d a; sexp_of_term ~depth:d b ]) in
+    let t = Gen_terms.random_term r (1 + Rng.int r 10) d 0 in
+    (match nf fuel g t with Some u when u <> t -> emitp t u | _ -> ());
+    (match whnf fuel g t with Some u when u <> t -> emitp t u | _ -> ());
+    if Rng.chance r 1 3 then emitp t (Gen_terms.random_term r (1 + Rng.int r 6) d 0);
+    if d >= 2 && d <= 6 && Rng.chance r 1 3 then
+      for i = 0 to d - 1 do for j = i + 1 to d - 1 do emitp (TVar (nat_of_int i)) (TVar (nat_of_int j)) done done
+  done
+
+let gen ~(tier : string) ~(seed : int) ~(emit : Sexp.t -> unit) : unit =
+  gen_closed ~tier ~seed ~emit; gen_ctx ~tier ~seed ~emit
 
 let check (case : Sexp.t) (res : Sexp.t) : [ `Ok | `Mismatch of string | `Property of string ] * bool =
   let closed_case = (match case with
